@@ -489,8 +489,11 @@ def check(ck):
                    "tasks wait", q.loc(fenq, pn))
     # the retirement decision and its accounting belong to one critical section
     for w in [w for w in ast.walk(frun.node) if isinstance(w, ast.If) and "_min_threads" in dump(w.test)]:
-        has_dec = any(isinstance(x, ast.AugAssign) and dump(x.target) == "self.__nb_threads" and isinstance(x.op, ast.Sub) for st_ in w.body for x in ast.walk(st_))
-        has_ret = any(isinstance(x, ast.Return) for st_ in w.body for x in ast.walk(st_))
+        # (the retiring branch is whichever arm of the test returns: the condition may be written in either polarity)
+        arms = [arm for arm in (w.body, w.orelse) if any(isinstance(x, ast.Return) for st_ in arm for x in ast.walk(st_))]
+        arm = arms[0] if arms else w.body
+        has_dec = any(isinstance(x, ast.AugAssign) and dump(x.target) == "self.__nb_threads" and isinstance(x.op, ast.Sub) for st_ in arm for x in ast.walk(st_))
+        has_ret = bool(arms)
         ck.require(has_dec and has_ret, "C10.7b", "%s: retirement decision and counter update in one critical section" % q.fn(frun),
                    "`nb_threads -= 1` in the branch that decides to retire",
                    "the worker that decides to retire does not decrement the thread counter in the critical section of that decision: a second "
